@@ -242,6 +242,20 @@ func parseContractFile(path, pkg string) (*ContractFile, error) {
 					return nil, fail("callsite needs a callee and an expression")
 				}
 				callee := rest[:sp]
+				if tr := strings.TrimSpace(rest[sp+1:]); strings.HasPrefix(tr, "track ") {
+					// callsite <callee> track <ghost> <type>: <expr>  — a ghost variable assigned at every call
+					fs := strings.SplitN(strings.TrimSpace(tr[6:]), ":", 2)
+					hd := strings.Fields(fs[0])
+					if len(fs) != 2 || len(hd) != 2 {
+						return nil, fail("track needs: <ghost> <type>: <expr>")
+					}
+					ex, err := parseContractExpr(strings.TrimSpace(fs[1]))
+					if err != nil {
+						return nil, fail(err.Error())
+					}
+					cur.Sites = append(cur.Sites, &Clause{Kind: "track", Name: hd[0], Region: hd[1], Src: strings.TrimSpace(fs[1]), Expr: ex, Line: l.no, LoopKey: callee})
+					continue
+				}
 				name, props, body, err := splitClauseHead(rest[sp+1:])
 				if err != nil {
 					return nil, fail(err.Error())
